@@ -30,6 +30,9 @@ pub struct Download {
     pub reduce: Option<(usize, u8)>,
     /// stop after this many received blocks without finishing
     pub abandon_after: Option<usize>,
+    /// plain requests on pairwise distinct other keys sent between two blocks
+    #[serde(default)]
+    pub foreign_between: u16,
 }
 
 #[derive(Clone, Debug, PartialEq, Eq, Hash, Serialize, Deserialize)]
@@ -241,6 +244,19 @@ pub fn run_download(
                 }
                 let next_size = 16usize << next_szx;
                 req_block2 = Some(block_bytes((received.len() / next_size) as u32, false, next_szx));
+                if d.foreign_between > 0 && facts.blocks == 1 {
+                    // other clients talk to the server in the meantime
+                    let small = AppSpec { code: 0x45, options: vec![], body: b"x".to_vec() };
+                    for i in 0..d.foreign_between {
+                        *mid = mid.wrapping_add(1);
+                        let mut other = d.request(*mid, None);
+                        other.path = vec![format!("f{i}").into_bytes()];
+                        let out = exchange(handler, &other.msg().encode().unwrap(), 100 + (i % 50) as u8, &mut |_r| Some(small.clone()));
+                        if let Some(msg) = out.panicked() {
+                            fail!("c08-panic", "handler panicked on an unrelated request: {msg}");
+                        }
+                    }
+                }
             }
         }
         first = false;
@@ -402,9 +418,11 @@ fn download() -> BoxedStrategy<Download> {
             proptest::option::weighted(0.4, 0u8..=6),
             proptest::option::weighted(0.3, (0usize..4, 0u8..=5)),
             proptest::option::weighted(0.15, 1usize..4),
+            prop_oneof![12 => Just(0u16), 2 => 1u16..40, 1 => 500u16..1500],
         ),
     )
-        .prop_map(|((endpoint, method, path, token_len, con), (code, options, body_len, body_seed), (first_szx, reduce, abandon_after))| Download {
+        .prop_map(|((endpoint, method, path, token_len, con), (code, options, body_len, body_seed), (first_szx, reduce, abandon_after, foreign_between))| Download {
+            foreign_between,
             endpoint,
             method,
             path,
@@ -426,9 +444,22 @@ fn plan() -> BoxedStrategy<Plan> {
         proptest::collection::vec(download(), 1..=3),
         0u8..8,
         any::<u16>(),
-        any::<bool>(),
+        0u8..4,
     )
-        .prop_map(|(mut transfers, kind, r, same_key)| {
+        .prop_map(|(mut transfers, kind, r, key_mode)| {
+            let same_key = key_mode == 0;
+            if key_mode == 1 && transfers.len() > 1 && !transfers[0].path.is_empty() {
+                // same endpoint and method, and a path that is the other one
+                // written as a single segment ("a/b" vs a, b): a different key
+                let k = transfers[0].clone();
+                if k.path.len() == 1 {
+                    transfers[0].path = vec![k.path[0].clone(), b"v1".to_vec()];
+                }
+                let joined = transfers[0].path.join(&b'/');
+                transfers[1].endpoint = k.endpoint;
+                transfers[1].method = k.method;
+                transfers[1].path = vec![joined];
+            }
             if same_key {
                 let k = transfers[0].clone();
                 for t in transfers.iter_mut().skip(1) {
@@ -488,6 +519,7 @@ pub fn run(ctx: &Ctx, rep: &mut Report) {
                     },
                     reduce: if strat == 0 && bs_szx > 0 { Some((0, 0)) } else { None },
                     abandon_after: None,
+                    foreign_between: 0,
                 };
                 let budget = d.app().overhead(2) + 12 + bs;
                 cases.push(Plan { budget, transfers: vec![d] });
